@@ -498,6 +498,10 @@ pub fn steps_for(bytes: &[u8]) -> Vec<Step> {
     for (sec, ok) in [(1u8, qr), (2, qr), (3, true)] {
         if ok {
             v.push(Step::Add(sec, "x.y. 77 IN A 1.2.3.4".into()));
+            if sec != 2 {
+                // same length, other record: the driver hands every text over in one and the same buffer
+                v.push(Step::Add(sec, "x.z. 78 IN A 4.3.2.1".into()));
+            }
             v.push(Step::Add(sec, "b.a. 5 IN MX 3 mail.b.a.".into()));
         }
     }
